@@ -4,7 +4,8 @@ CONSTANTS
   WithQueries = FALSE
   WithMixed = FALSE
   HeavyLaws = FALSE
+  SlimGates = TRUE
   Mutant <- MutNewSysA
 VIEW View
-INVARIANT ImplRoutes
+INVARIANT ImplRoutes4
 CHECK_DEADLOCK FALSE
